@@ -331,72 +331,64 @@ Section E.
   Notation rl := (render_lookup tree exec).
   Notation eng := (render_eng tree exec).
 
+  Lemma complete_inv s : complete tree s -> inv tree s.
+  Proof. intros H _. exact H. Qed.
+
+  Lemma fresh_inv : inv tree fresh.
+  Proof. intros H. discriminate H. Qed.
+
+  Lemma full_complete : complete tree (true, Some tree).
+  Proof. split; [reflexivity|]. exists tree. split; [reflexivity|intros n; reflexivity]. Qed.
+
   Lemma found_complete s n : complete tree s -> found exec s n = rl n.
   Proof.
-    intros [l [-> Hl]]. unfold found, render_lookup. rewrite (mem_same l tree n Hl). reflexivity.
+    intros [_ [l [Hs Hl]]]. unfold found, render_lookup. rewrite Hs, (mem_same l tree n Hl). reflexivity.
   Qed.
 
-  Lemma load_complete s f : complete tree s -> complete tree (load tree s f).
+  (* the repaired load keeps the invariant: a full load makes the engine complete, a filtered load
+     does not touch the flag and replaces what the filter covers by what it covers in the tree *)
+  Lemma load_inv s f : inv tree s -> inv tree (load tree s f).
   Proof.
-    intros [l [-> Hl]]. unfold load, load_gen. destruct f as [|c f].
-    - exists l. split; [reflexivity|exact Hl].
-    - eexists. split; [reflexivity|]. intros n. rewrite in_app_iff, !filter_In, Hl.
+    intros Hi. unfold load, load_gen. destruct f as [|c f].
+    - destruct (fst s) eqn:Fl; [exact Hi|]. apply complete_inv. apply full_complete.
+    - intros Hf. cbn [fst] in Hf. rewrite orb_false_r in Hf.
+      destruct (Hi Hf) as [_ [l [Hs Hl]]]. split; [cbn [fst]; rewrite Hf; reflexivity|].
+      cbn [snd]. rewrite Hs. eexists. split; [reflexivity|].
+      intros n. rewrite in_app_iff, !filter_In, Hl.
       destruct (prefixb (c :: f) n); simpl; intuition discriminate.
   Qed.
 
-  Lemma load_fresh_full : complete tree (load tree None []).
-  Proof. exists tree. split; [reflexivity|intros n; reflexivity]. Qed.
-
-  (* production mode: a render on a complete engine changes nothing and is the exact lookup;
-     a render on an engine that never loaded loads everything first *)
-  Lemma render_prod_complete s n :
-    complete tree s -> fst (eng false s n) = s /\ snd (eng false s n) = rl n.
+  (* production mode: a render on an engine that satisfies the invariant leaves it complete
+     (loading everything first if it is not marked as loaded) and is the exact lookup *)
+  Lemma render_prod_inv s n :
+    inv tree s -> complete tree (fst (eng false s n)) /\ snd (eng false s n) = rl n.
   Proof.
-    intros Hc. pose proof (found_complete s n Hc) as Hf. destruct Hc as [l [-> Hl]].
-    unfold render_eng; simpl. split; [reflexivity|exact Hf].
+    intros Hi. unfold render_eng. cbn [fst snd].
+    assert (Hc : complete tree (if fst s then s else (true, Some tree))).
+    { destruct (fst s) eqn:Fl; [apply Hi; exact Fl|apply full_complete]. }
+    split; [exact Hc|apply found_complete; exact Hc].
   Qed.
 
-  Lemma render_prod_fresh n :
-    complete tree (fst (eng false None n)) /\ snd (eng false None n) = rl n.
-  Proof.
-    unfold render_eng; simpl. split.
-    - exists tree. split; [reflexivity|intros x; reflexivity].
-    - unfold render_lookup. reflexivity.
-  Qed.
-
-  Lemma rp_loopS_prod_complete t ps : forall s acc,
-    complete tree s ->
-    complete tree (fst (rp_loopS tset (eng false) s t ps acc)) /\
+  Lemma rp_loopS_prod_inv t ps : forall s acc,
+    inv tree s ->
+    inv tree (fst (rp_loopS tset (eng false) s t ps acc)) /\
     snd (rp_loopS tset (eng false) s t ps acc) = rp_loop rl t ps acc.
   Proof.
-    induction ps as [|p r IH]; cbn [rp_loopS rp_loop]; intros s acc Hc.
-    - split; [exact Hc|reflexivity].
-    - destruct (render_prod_complete s (partial_name t p) Hc) as [Hs Hr].
-      destruct (eng false s (partial_name t p)) as [s' [b|]]; cbn [fst snd] in Hs, Hr; subst s'; rewrite <- Hr.
-      + apply IH. exact Hc.
-      + split; [exact Hc|reflexivity].
+    induction ps as [|p r IH]; cbn [rp_loopS rp_loop]; intros s acc Hi.
+    - split; [exact Hi|reflexivity].
+    - destruct (render_prod_inv s (partial_name t p) Hi) as [Hc Hr].
+      destruct (eng false s (partial_name t p)) as [s' [b|]]; cbn [fst snd] in Hc, Hr; rewrite <- Hr.
+      + apply IH. apply complete_inv. exact Hc.
+      + split; [apply complete_inv; exact Hc|reflexivity].
   Qed.
 
-  Lemma rp_loopS_prod_fresh t ps : forall acc,
-    snd (rp_loopS tset (eng false) None t ps acc) = rp_loop rl t ps acc /\
-    (ps <> [] -> complete tree (fst (rp_loopS tset (eng false) None t ps acc))).
+  Lemma do_call_inv s c :
+    inv tree s -> inv tree (do_call tset (eng false) (load tree) s c).
   Proof.
-    destruct ps as [|p r]; cbn [rp_loopS rp_loop]; intros acc.
-    - split; [reflexivity|intros H; congruence].
-    - destruct (render_prod_fresh (partial_name t p)) as [Hc Hr].
-      destruct (eng false None (partial_name t p)) as [s' [b|]]; cbn [fst snd] in Hc, Hr; rewrite <- Hr.
-      + destruct (rp_loopS_prod_complete t r s' (insert p b acc) Hc) as [H1 H2].
-        split; [exact H2|intros _; exact H1].
-      + split; [reflexivity|intros _; exact Hc].
-  Qed.
-
-  Lemma do_call_complete s c :
-    complete tree s -> complete tree (do_call tset (eng false) (load tree) s c).
-  Proof.
-    intros Hc. destruct c as [n|t ps|f]; cbn [do_call].
-    - rewrite (proj1 (render_prod_complete s n Hc)). exact Hc.
-    - unfold render_partialsS. apply rp_loopS_prod_complete. exact Hc.
-    - apply load_complete. exact Hc.
+    intros Hi. destruct c as [n|t ps|f]; cbn [do_call].
+    - apply complete_inv. apply render_prod_inv. exact Hi.
+    - unfold render_partialsS. apply rp_loopS_prod_inv. exact Hi.
+    - apply load_inv. exact Hi.
   Qed.
 
   Lemma after_cons s c h :
@@ -404,46 +396,30 @@ Section E.
     = after tset (eng false) (load tree) (do_call tset (eng false) (load tree) s c) h.
   Proof. reflexivity. Qed.
 
-  Lemma after_complete h : forall s,
-    complete tree s -> complete tree (after tset (eng false) (load tree) s h).
+  Lemma after_inv h : forall s,
+    inv tree s -> inv tree (after tset (eng false) (load tree) s h).
   Proof.
-    induction h as [|c h IH]; intros s Hc; [exact Hc|].
-    rewrite after_cons. apply IH. apply do_call_complete. exact Hc.
+    induction h as [|c h IH]; intros s Hi; [exact Hi|].
+    rewrite after_cons. apply IH. apply do_call_inv. exact Hi.
   Qed.
 
-  (* an engine that holds all templates keeps answering like the pure loop with the exact lookup
-     in the tree, whatever loads (full, filtered by the page name, by a partial, by any prefix),
-     renders and partial requests follow *)
+  (* an engine that satisfies the invariant - a fresh one, one that holds all templates - keeps
+     answering like the pure loop with the exact lookup in the tree, whatever loads (full, filtered
+     by the page name, by a partial, by any prefix; also as the very first call), renders and
+     partial requests come before *)
   Theorem reloads_harmless s0 h t ps :
-    complete tree s0 ->
+    inv tree s0 ->
     snd (render_partialsS tset (eng false) (after tset (eng false) (load tree) s0 h) t ps)
     = render_partials rl t ps.
   Proof.
-    intros Hc. unfold render_partialsS, render_partials.
-    apply rp_loopS_prod_complete. apply after_complete. exact Hc.
+    intros Hi. unfold render_partialsS, render_partials.
+    apply rp_loopS_prod_inv. apply after_inv. exact Hi.
   Qed.
 
-  (* ... and so does an engine that never loaded, as long as the first call that touches the
-     template set is not a filtered load *)
-  Theorem fresh_engine_history h : forall t ps,
-    hist_ok h = true ->
-    snd (render_partialsS tset (eng false) (after tset (eng false) (load tree) None h) t ps)
+  Theorem every_history h t ps :
+    snd (render_partialsS tset (eng false) (after tset (eng false) (load tree) fresh h) t ps)
     = render_partials rl t ps.
-  Proof.
-    induction h as [|c h IH]; intros t ps Hok.
-    - change (after tset (eng false) (load tree) None []) with (@None (list bytes)).
-      unfold render_partialsS, render_partials. apply rp_loopS_prod_fresh.
-    - rewrite after_cons.
-      destruct c as [n|t' ps'|f]; cbn [hist_ok] in Hok; cbn [do_call].
-      + apply reloads_harmless. apply render_prod_fresh.
-      + destruct ps' as [|p' r'].
-        * change (fst (render_partialsS tset (eng false) None t' [])) with (@None (list bytes)).
-          apply IH. exact Hok.
-        * apply reloads_harmless. unfold render_partialsS.
-          apply (proj2 (rp_loopS_prod_fresh t' (p' :: r') [])). discriminate.
-      + destruct f as [|c0 f]; [|discriminate].
-        apply reloads_harmless. apply load_fresh_full.
-  Qed.
+  Proof. apply reloads_harmless. apply fresh_inv. Qed.
 
   (* debug mode: every render reloads the templates that have its own name as prefix, so the
      lookup is exact in EVERY state of the engine *)
@@ -452,20 +428,19 @@ Section E.
     intros Hn. unfold render_eng. destruct n as [|c n]; [congruence|].
     assert (Hm : forall l, mem (c :: n) (filter (prefixb (c :: n)) tree ++ l) = true <-> In (c :: n) tree \/ In (c :: n) l).
     { intros l. rewrite mem_In, in_app_iff, filter_In, prefixb_refl. intuition. }
-    unfold render_lookup, load, load_gen, found.
-    destruct s as [l|]; cbn [snd].
-    - set (old := filter (fun x => negb (prefixb (c :: n) x)) l).
-      destruct (mem (c :: n) tree) eqn:M.
-      + rewrite (proj2 (Hm old)); [reflexivity|left; apply mem_In; exact M].
-      + destruct (mem (c :: n) (filter (prefixb (c :: n)) tree ++ old)) eqn:M'; [|reflexivity].
-        exfalso. apply Hm in M'. destruct M' as [H|H].
-        * apply mem_false_In in M. contradiction.
-        * unfold old in H. apply filter_In in H. rewrite prefixb_refl in H. destruct H as [_ H]. discriminate H.
-    - destruct (mem (c :: n) tree) eqn:M.
-      + replace (filter (prefixb (c :: n)) tree) with (filter (prefixb (c :: n)) tree ++ []) by apply app_nil_r.
-        rewrite (proj2 (Hm [])); [reflexivity|left; apply mem_In; exact M].
-      + destruct (mem (c :: n) (filter (prefixb (c :: n)) tree)) eqn:M'; [|reflexivity].
-        exfalso. apply mem_In in M'. apply filter_In in M'. apply mem_false_In in M. tauto.
+    unfold render_lookup, load, load_gen, found. cbn [snd].
+    set (old := match snd s with
+                | Some l => filter (fun x => negb (prefixb (c :: n) x)) l
+                | None => []
+                end).
+    assert (Hold : ~ In (c :: n) old).
+    { unfold old. destruct (snd s) as [l|]; [|intros []].
+      intros H. apply filter_In in H. rewrite prefixb_refl in H. destruct H as [_ H]. discriminate H. }
+    destruct (mem (c :: n) tree) eqn:M.
+    - rewrite (proj2 (Hm old)); [reflexivity|left; apply mem_In; exact M].
+    - destruct (mem (c :: n) (filter (prefixb (c :: n)) tree ++ old)) eqn:M'; [|reflexivity].
+      exfalso. apply Hm in M'. destruct M' as [H|H]; [|contradiction].
+      apply mem_false_In in M. contradiction.
   Qed.
 
   Lemma rp_loopS_debug t ps : forall s acc,
@@ -481,14 +456,16 @@ Section E.
   Proof. apply rp_loopS_debug. Qed.
 End E.
 
-(* The domain restriction of [fresh_engine_history] is needed: a filtered load as the first call
-   on a production engine marks it as loaded with the filtered templates only. *)
-Lemma filtered_first_refuted :
+(* The repair dd313c0 is needed: with a loader that marks the engine as loaded on EVERY load
+   ([load_unrepaired], the code before), a filtered load as the first call leaves a production
+   engine with the filtered templates only. *)
+Lemma filtered_first_unrepaired_refuted :
   exists f ps,
     (forall p, In p ps -> partial_exists nv_tree (B "cart") p = true) /\
     snd (render_partialsS tset (render_eng nv_tree nv_exec false)
-           (after tset (render_eng nv_tree nv_exec false) (load nv_tree) None [CLoad f]) (B "cart") ps) = None /\
-    render_partials (render_lookup nv_tree nv_exec) (B "cart") ps <> None.
+           (after tset (render_eng nv_tree nv_exec false) (load_unrepaired nv_tree) fresh [CLoad f]) (B "cart") ps) = None /\
+    snd (render_partialsS tset (render_eng nv_tree nv_exec false)
+           (after tset (render_eng nv_tree nv_exec false) (load nv_tree) fresh [CLoad f]) (B "cart") ps) <> None.
 Proof.
   exists (B "cart.partial/a"), [B "a"; B "b"]. split; [|split].
   - intros p [<-|[<-|[]]]; vm_compute; reflexivity.
@@ -502,36 +479,39 @@ Qed.
 Lemma exact_reload_refuted :
   exists ps,
     (forall p, In p ps -> partial_exists nv_tree (B "cart") p = true) /\
-    complete nv_tree (Some nv_tree) /\
+    complete nv_tree (true, Some nv_tree) /\
     snd (render_partialsS tset (render_eng nv_tree nv_exec false)
-           (after tset (render_eng nv_tree nv_exec false) (load_exact nv_tree) (Some nv_tree) [CLoad (B "cart")])
+           (after tset (render_eng nv_tree nv_exec false) (load_exact nv_tree) (true, Some nv_tree) [CLoad (B "cart")])
            (B "cart") ps) = None /\
     snd (render_partialsS tset (render_eng nv_tree nv_exec false)
-           (after tset (render_eng nv_tree nv_exec false) (load nv_tree) (Some nv_tree) [CLoad (B "cart")])
+           (after tset (render_eng nv_tree nv_exec false) (load nv_tree) (true, Some nv_tree) [CLoad (B "cart")])
            (B "cart") ps) <> None.
 Proof.
   exists [B "a"; B "x/y"]. split; [|split; [|split]].
   - intros p [<-|[<-|[]]]; vm_compute; reflexivity.
-  - exists nv_tree. split; [reflexivity|intros n; reflexivity].
+  - apply full_complete.
   - vm_compute. reflexivity.
   - vm_compute. discriminate.
 Qed.
 
-(* non-vacuity: reload of the page, of a partial, of a prefix, of nothing, then a request *)
+(* non-vacuity: filtered loads first, reload of the page, of a partial, of a prefix, of nothing *)
 Example nv_reloads :
   snd (render_partialsS tset (render_eng nv_tree nv_exec false)
-         (after tset (render_eng nv_tree nv_exec false) (load nv_tree) None
-            [CLoad []; CLoad (B "cart"); CRender (B "other"); CLoad (B "cart.partial/a"); CLoad (B "ca"); CLoad (B "zz"); CLoad []])
+         (after tset (render_eng nv_tree nv_exec false) (load nv_tree) fresh
+            [CLoad (B "cart.partial/a"); CLoad (B "other"); CLoad []; CLoad (B "cart"); CRender (B "other");
+             CLoad (B "cart.partial/a"); CLoad (B "ca"); CLoad (B "zz"); CLoad []])
          (B "cart") [B "b"; B "a"])
   = Some [(B "b", B "<cart.partial/b>"); (B "a", B "<cart.partial/a>")]
-  /\ hist_ok [CPartials (B "cart") []; CRender (B "nope"); CLoad (B "cart")] = true
-  /\ hist_ok [CPartials (B "cart") []; CLoad (B "cart"); CLoad []] = false.
+  /\ after tset (render_eng nv_tree nv_exec false) (load nv_tree) fresh [CLoad (B "cart.partial/a")]
+     = (false, Some [B "cart.partial/a"])
+  /\ after tset (render_eng nv_tree nv_exec false) (load_unrepaired nv_tree) fresh [CLoad (B "cart.partial/a")]
+     = (true, Some [B "cart.partial/a"]).
 Proof. vm_compute. repeat split; reflexivity. Qed.
 
 Example nv_debug_engine :
   snd (render_partialsS tset (render_eng nv_tree nv_exec true)
-         (after tset (render_eng nv_tree nv_exec true) (load nv_tree) None [CLoad (B "cart.partial/a"); CRender (B "other")])
+         (after tset (render_eng nv_tree nv_exec true) (load nv_tree) fresh [CLoad (B "cart.partial/a"); CRender (B "other")])
          (B "cart") [B "b"; B "nope"; B "a"]) = None
-  /\ snd (render_partialsS tset (render_eng nv_tree nv_exec true) (Some [B "other"]) (B "cart") [B "b"; B "a"])
+  /\ snd (render_partialsS tset (render_eng nv_tree nv_exec true) (false, Some [B "other"]) (B "cart") [B "b"; B "a"])
      = Some [(B "b", B "<cart.partial/b>"); (B "a", B "<cart.partial/a>")].
 Proof. vm_compute. split; reflexivity. Qed.
